@@ -21,6 +21,7 @@ tvars == <<g, branched, base, l, failed, bad>>
 RootG == [NoneG EXCEPT !.kind = "L"]
 TInit == g = [i \in 1..MaxS |-> IF i = 1 THEN RootG ELSE NoneG] /\ branched = FALSE /\ base = 0 /\ l = 1 /\ failed = FALSE /\ bad = <<>>
 Seq1(x) == [i \in 1..Len(x) |-> x[i]]
+UserHooks(hs) == SelectSeq(hs, LAMBDA x : x > 0)
 
 \* the source slot is marked used when it is a Context value (a second use is the known-finding shape)
 Put(i, j, v) == g' = [[g EXCEPT ![i] = (IF g[i].kind = "C" THEN [g[i] EXCEPT !.used = TRUE] ELSE g[i])] EXCEPT ![j] = v]
@@ -35,6 +36,7 @@ Derive(e) ==
     [] e.a = "Logger" -> Put(e.i, e.j, [s EXCEPT !.kind = "L", !.used = FALSE]) /\ Branch(e.i)
     [] e.a = "Level"  -> Put(e.i, e.j, [s EXCEPT !.level = e.arg]) /\ UNCHANGED branched
     [] e.a = "Hook"   -> Put(e.i, e.j, [s EXCEPT !.hooks = Append(@, e.arg)]) /\ UNCHANGED branched
+    [] e.a = "CtxHook" -> Put(e.i, e.j, [s EXCEPT !.hooks = Append(@, e.arg), !.used = FALSE]) /\ Branch(e.i)   \* Timestamp / Caller: arg < 0
     [] e.a = "Output" -> Put(e.i, e.j, [s EXCEPT !.dest = l - base]) /\ UNCHANGED branched   \* destination id = step number
     [] e.a = "Update" -> g' = [g EXCEPT ![e.i].fields = Append(@, e.arg)] /\ UNCHANGED branched
     [] e.a = "UpdateReset" -> g' = [g EXCEPT ![e.i].fields = <<e.arg>>] /\ UNCHANGED branched
@@ -45,7 +47,8 @@ EmitOK(e) ==
   LET s == g[e.i] IN
   /\ e.writes = 1 /\ e.valid
   /\ Seq1(e.fields) = s.fields                                   \* exactly the context fields of its own path, in order
-  /\ Seq1(e.hooks) = s.hooks                                     \* its own hooks, once each, in registration order
+  /\ Seq1(e.hooks) = UserHooks(s.hooks)                          \* its own hooks, once each, in registration order
+  /\ Seq1(e.hookobs) = s.hooks                                   \* what the event shows of them: user and library hooks (time, caller) interleaved as registered
   /\ \A k \in 1..Len(e.hookctx) : e.hookctx[k] = s.goctx         \* hooks see the logger's Go context (0 = background)
   /\ \A k \in 1..Len(e.nested) : e.nested[k] \in {0, s.goctx}    \* nested marshalers: own context or background, never a stale one
   /\ e.dest = s.dest                                             \* Output changes the destination and nothing else
@@ -55,7 +58,7 @@ EmitOK(e) ==
 \* the recorded finding: a Context VALUE was derived from twice and an emission's CONTEXT FIELDS are not its own - nothing else
 \* about the emission is off (hooks, Go context, destination, level, stack flag are value fields, not bytes of the shared array)
 OnlyFieldsOff(e) == LET s == g[e.i] IN
-                    /\ e.writes = 1 /\ Seq1(e.fields) # s.fields /\ Seq1(e.hooks) = s.hooks /\ e.dest = s.dest
+                    /\ e.writes = 1 /\ Seq1(e.fields) # s.fields /\ Seq1(e.hooks) = UserHooks(s.hooks) /\ Seq1(e.hookobs) = s.hooks /\ e.dest = s.dest
                     /\ \A k \in 1..Len(e.hookctx) : e.hookctx[k] = s.goctx
                     /\ e.debug = (s.level <= 0) /\ e.info = (s.level <= 1) /\ e.stacktop = s.stack /\ ~e.stacknested
 Sig(e) == IF branched /\ OnlyFieldsOff(e) THEN "CtxValueBranchedSig" ELSE ""
